@@ -173,3 +173,62 @@ def discharge(ded, eng, qualname, clause_of=None, tier='quick', variant=None, la
             refuted.append((ob, model, trace))
     info['wall_s'] = round(time.time() - t0, 2)
     return dict(status='ok', refuted=refuted)
+
+
+# ---------------------------------------------------------------------------------------------------------------------
+# function-level parallelism: one worker process per function under contract (solver queries run serially inside)
+ONLY = {
+    None: None,
+    'guard': lambda p: p.label.startswith('guarded-by') or p.kind == 'cover',
+}
+
+
+def _worker(spec):
+    import importlib
+    import os
+    import traceback
+    os.environ['VERIF_SERIAL'] = '1'
+    from lib.core import Deductive
+    try:
+        m = importlib.import_module(spec['module'])
+        eng = m.make_engine(spec['repo'])
+        d = Deductive()
+        only = spec.get('only')
+        if isinstance(only, str) and only.startswith('fn:'):
+            modname, fn = only[3:].split(':')
+            only_f = getattr(importlib.import_module(modname), fn)
+        else:
+            only_f = ONLY[only]
+        discharge(d, eng, spec['q'], clause_of=spec.get('clause_of'), tier=spec.get('tier', 'quick'),
+                  variant=spec.get('variant'), timeout=spec.get('timeout'), only=only_f)
+        return dict(obligations=d.obligations, functions=d.functions, assumptions=d.assumptions, trusted=d.trusted,
+                    demotions=d.demotions, vacuity=d.vacuity, checker_errors=d.checker_errors)
+    except Exception:
+        return dict(error='%s %s: %s' % (spec['q'], spec.get('variant'), traceback.format_exc()[-1200:]))
+
+
+def run_parallel(ded, specs, jobs=None):
+    import multiprocessing as mp
+    import os
+    if not specs:
+        return
+    jobs = jobs or min(len(specs), int(os.environ.get('VERIF_JOBS', '0') or 0) or min(16, os.cpu_count() or 4))
+    if jobs <= 1 or os.environ.get('VERIF_SERIAL'):
+        results = [_worker(s) for s in specs]
+    else:
+        with mp.get_context('fork').Pool(jobs) as pool:
+            results = pool.map(_worker, specs, chunksize=1)
+    for r in results:
+        if 'error' in r:
+            ded.checker_errors.append(r['error'])
+            continue
+        ded.obligations.extend(r['obligations'])
+        ded.functions.update(r['functions'])
+        for a in r['assumptions']:
+            ded.assume(a)
+        for t in r['trusted']:
+            ded.trust(t)
+        ded.demotions.extend(r['demotions'])
+        for k, v in r['vacuity'].items():
+            ded.vacuity[k] = ded.vacuity.get(k, 0) + v
+        ded.checker_errors.extend(r['checker_errors'])
